@@ -244,7 +244,8 @@ def fam_sample_rates(tier):
                 continue
             ws = [wf(n, A=[(0, F(1, 4)), (n // 2, F(-1, 4)), (n - 1, F(1, 8))]), wf(192, A=0)]
             out.append(mk(T([L(0), L(1)]), ws, rate=rate, **STD_CFG))
-            out.append(mk(T([L(1), L(0, 2)]), list(reversed(ws)), rate=rate, **STD_CFG))
+            if tier != 'quick' or n in (191, 192, 193):
+                out.append(mk(T([L(1), L(0, 2)]), list(reversed(ws)), rate=rate, **STD_CFG))
     for rate, step in (('3', 3), ('3/2', 3), ('3/4', 3), ('5/4', 5), ('5', 5)):
         for n in sorted({192 - step, 192, 192 + step, 240 - step, 240, 240 + step}):
             ws = [wf(n, A=[(0, F(1, 4)), (6 * step, F(-1, 4)), (20 * step, F(1, 8))]), wf(240, A=0)]
